@@ -15,7 +15,7 @@
   The severity split is taken from the source by the extractor (`Gen.validationErrors`,
   `Gen.validationWarnings`: the `matches!` list of `ValidationIssue::is_error`).
 -/
-import QV.Proofs.ZoneValidate
+import QV.Proofs.ZoneOracle
 
 namespace QV.C21
 open QV QV.NameL QV.Zone QV.Spec.Zone
@@ -39,6 +39,13 @@ theorem C21_holds : C21_full := by
   have hw := build_wf eqv (Zone.new apex cls glue) rs Node.empty_wf
   obtain ⟨h1, h2⟩ := validate_eq_spec h hw nameOf
   exact ⟨h1, h2, isError_eq⟩
+
+/-- The executable reference checker that the correspondence check runs as oracle
+    (`specValidate`) computes exactly the declarative one. -/
+theorem C21_oracle (nameOf : NameOf) (s : SZone) :
+    (specValidate nameOf s = none ↔ InvalidRdata nameOf s) ∧
+    (∀ l, specValidate nameOf s = some l → ∀ i, i ∈ l ↔ HasIssue nameOf s i) :=
+  ⟨specValidate_none nameOf s, fun l h i => specValidate_mem nameOf s l h i⟩
 
 /-- Only the MX-address and NS-at-wildcard issues are warnings — read off the source:
     `is_error` is false exactly for the variants the extractor found in its `matches!` list. -/
